@@ -147,6 +147,7 @@ def api_case(rec, ci, li, tkind, suffix, mask, method, layout, chunk, seed):
         target, newdim = xr.DataArray(lv2, dims=["x", "lev"]), "lev"
         kw["target_dim"] = "lev"
     rec.case(tuple(sorted(case.items(), key=str)), True, sample=case)
+    before = (np.array(da.values), np.array(td.values), np.array(lvv))
     try:
         with warnings.catch_warnings():
             warnings.simplefilter("ignore")
@@ -154,6 +155,11 @@ def api_case(rec, ci, li, tkind, suffix, mask, method, layout, chunk, seed):
             v = r.compute() if chunk else r
     except Exception as e:
         rec.violation("api", "raise:" + exc_sig(e), case, "array", f"{type(e).__name__}: {e}"[:200])
+        return
+    # the inputs are still what they were (a second transform on the same arrays must see the same data)
+    if not (np.array_equal(before[0], da.values) and np.array_equal(before[1], td.values) and np.array_equal(before[2], lvv)):
+        which = "data" if not np.array_equal(before[0], da.values) else "target_data" if not np.array_equal(before[1], td.values) else "target"
+        rec.violation("api", "input-overwritten:" + which, case, "inputs unchanged", which + " changed")
         return
     if set(v.dims) != {"x", newdim}:
         rec.violation("api", "new-dimension-name", case, ["x", newdim], list(v.dims))
